@@ -99,7 +99,7 @@ std::unique_ptr<NodeResult> InputNode::evaluate(PSC::Context &ctx) {
             var->get<PSC::Boolean>() = (inputStr.value == "TRUE");
             break;
         case PSC::DataType::CHAR:
-            var->get<PSC::Char>() = inputStr.value.front();
+            var->get<PSC::Char>() = inputStr.value.empty() ? '\0' : inputStr.value.front();
             break;
         case PSC::DataType::STRING:
             var->get<PSC::String>().value = std::move(inputStr.value);
